@@ -1,7 +1,9 @@
 """C05 - skeletonize, thin and binary_shrink preserve the topology of every object."""
 import importlib.util
-import itertools
+import json
 import os
+import subprocess
+import sys
 
 import numpy as np
 
@@ -13,26 +15,33 @@ EXTRACT = ("theories/Extract/XC05.v", "c05",
 PYX = {"_cpmorphology2.pyx": ["skeletonize_loop", "index_lookup", "prepare_for_index_lookup",
                               "extract_from_image_lookup"]}
 CASE_TIMEOUT = 60
-RULE = ("exhaustive: every binary image of every shape up to 3x3 plus 3x4, 4x3, 2x4, 4x2, 1x5, 5x1 (thorough: also 4x4, 3x5, 5x3, 2x5, 5x2) "
-        "through thin(None), binary_shrink(-1) and skeletonize_loop (current table, a pseudo-random order per image); "
-        "random: shapes skewed to 1xN/Nx1/2x2/3x3 up to 26x26 (thorough 40x40), contents all-0, all-1, noise at "
-        "densities 0.1-0.95, thresholded smooth blobs, rings / nested rings, one-pixel lines, 2x2 blocks, "
-        "border-touching frames, checkerboards, long winding one-pixel lines (serpentines, spirals); thin with iterations None/0..6, binary_shrink with -1/0..6, "
-        "index_lookup with each of the seven tables, skeletonize_loop with random / raster / reverse orders, "
-        "skeletonize with a random distinct-integer ordering (exact), skeletonize default ordering (exact, given the "
-        "order the code built, plus topo_check), skeletonize_labels (topo_check per label). Non-trivial = at least "
-        "one pixel removed; distinct by hash of the case")
+RULE = ("exhaustive: every binary image of every shape up to 3x3 plus 3x4, 2x4, 4x2, 1x5, 5x1 (thorough: also 4x3, 4x4, "
+        "3x5, 5x3, 2x5, 5x2) through thin(None), binary_shrink(-1) and skeletonize_loop (current table, a pseudo-random "
+        "order per image); random: shapes skewed to 1xN/Nx1/2x2/3x3 up to 26x26 (thorough 40x40), long images 200x3 / "
+        "3x200 (thorough 900x3, 3x900, 900x2, 1x900), contents all-0, all-1, noise at densities 0.1-0.98, smooth blobs, "
+        "rings / nested rings, lines, 2x2 blocks, border-touching frames, checkerboards, serpentines and spirals "
+        "(thorough: up to 56x56); every entry point with every parameter: thin(image, mask, iterations None/-1/0/1/k), "
+        "binary_shrink(image, iterations -1/-3/0/1/k), skeletonize(image, mask, ordering), skeletonize_labels, "
+        "index_lookup with each of the seven tables, skeletonize_loop with random / raster / reverse orders; input "
+        "dtypes bool, uint8, int8, uint16, int32, int64, float32, float64 (foreground value 1, 255 or 0.5) and layouts "
+        "C, Fortran, strided view, negative strides, read-only; label images int16/32/64, uint8/16/32 with sparse "
+        "numbering, touching labels, no background, split objects; sessions = 4-10 calls of mixed entry points in a "
+        "FRESH interpreter (lazily built tables, state between calls); all other cases run interleaved in four worker "
+        "processes. Non-trivial = at least one pixel removed; distinct by hash of the case")
 TRUSTED = [
     "tools/gen_tables_c05.py (dumps the seven tables of the staged package into Gen/TablesC05.v on every run)",
     "modelled, not verified: scipy.ndimage.distance_transform_edt, np.random.permutation tiebreak and np.lexsort "
     "(the order they produce is captured at the skeletonize_loop call and handed to the model; the theorem holds "
-    "for every order), color_labels (C15), NumPy boolean indexing in prepare_for_index_lookup / "
-    "extract_from_image_lookup",
+    "for every order), color_labels (C15: the colour masks are captured at the per-colour skeletonize_loop calls), "
+    "NumPy boolean indexing / dtype conversion in prepare_for_index_lookup / extract_from_image_lookup, and the "
+    "mask composition image[~mask] (the harness composes model(image & mask) with the input outside the mask)",
     "completeness of topo_check (it rejects only images whose topology changed) rests on Ronse's theorem on "
-    "sequential deletion of simple points in 2-D; it is cross-checked on every case against a literal "
-    "component-counting check (scipy.ndimage.label); soundness is proved (C05_topo_check_sound)",
+    "sequential deletion of simple points in 2-D (C05_topo_check_complete_partial names it as its one hypothesis); "
+    "it is cross-checked against a literal component-counting check (scipy.ndimage.label); soundness is proved "
+    "(C05_topo_check_sound)",
 ]
-ASSUMPTIONS = ["binary (boolean) input images; label images for skeletonize_labels are non-negative ints",
+ASSUMPTIONS = ["two-valued input images {0, v}; skeletonize without a mask needs a boolean array (it raises on other "
+               "dtypes); label images for skeletonize_labels are non-negative integer arrays",
                "ordering matrices passed to skeletonize have pairwise distinct integer entries"]
 EXHAUSTIVE = {"quick": False, "thorough": False}   # exhaustive only over the small shapes named in RULE
 
@@ -47,7 +56,70 @@ def _gen_tool():
     return m
 
 
+# -- coqchk ---------------------------------------------------------------------------------------------------------
+# The core's thorough tier runs `coqchk -o` WITHOUT the bytecode VM (coqchk's default) under a 1500 s timeout.  The
+# six 4x5-window sweeps are vm_compute proofs: without the VM coqchk needs > 5 min for EACH of them (measured), so the
+# core's call can only time out and would raise a false alarm.  This module therefore switches the core's call off
+# for its own run and runs the same independent checker itself with `-bytecode-compiler yes` (2 min for the whole
+# dependency cone; the VM is in the trusted base of every vm_compute proof anyway), in the background during the
+# correspondence phase; a failure, an axiom or an unsafe flag breaks the run exactly like the core's call would.
+_CHK = {}
+
+
+def _coqchk_start(ctx):
+    if ctx.tier != "thorough" or _CHK.get("user_off") or "proc" in _CHK:
+        return
+    from harness import core
+    vo = os.path.join(core.COQ, PROPS_FILE[:-2] + ".vo")
+    if not os.path.exists(vo):
+        return                      # the proof build failed; that is reported by the core already
+    import tempfile
+    _CHK["out"] = tempfile.TemporaryFile(mode="w+")
+    _CHK["t0"] = __import__("time").time()
+    _CHK["proc"] = subprocess.Popen(
+        ["timeout", "1500", "coqchk", "-silent", "-o", "-bytecode-compiler", "yes", "-R", "theories", "Centro",
+         "Centro." + PROPS_FILE[len("theories/"):-2].replace("/", ".")],
+        cwd=core.COQ, stdout=_CHK["out"], stderr=subprocess.STDOUT)
+
+
+def _coqchk_finish(ctx):
+    """None when fine / not run; otherwise the text of the broken obligation"""
+    if "proc" not in _CHK:
+        return None
+    import re
+    import time
+    rc = _CHK["proc"].wait()
+    _CHK["out"].seek(0)
+    out = _CHK["out"].read()
+    ctx.timings["coqchk_vm"] = round(time.time() - _CHK["t0"], 1)
+    if rc != 0 or "CONTEXT SUMMARY" not in out:
+        return "coqchk -bytecode-compiler yes failed (rc %s): %s" % (rc, out.strip()[-400:])
+    summ = out.split("CONTEXT SUMMARY", 1)[1]
+
+    def section(title):
+        m = re.search(r"\* " + re.escape(title) + r"[^:]*:(.*?)(?=\n\s*\* |\Z)", summ, re.S)
+        return " ".join(m.group(1).split()) if m else "?"
+    res = {k: section(t) for k, t in (("axioms", "Axioms"),
+                                      ("type_in_type", "Constants/Inductives relying on type-in-type"),
+                                      ("unsafe_fix", "Constants/Inductives relying on unsafe (co)fixpoints"),
+                                      ("assumed_positive", "Inductives whose positivity is assumed"))}
+    line = ("coqchk -o -bytecode-compiler yes (independent checker, whole dependency cone of Props/C05.v, run by "
+            "harness/props/c05.py because the core's VM-less call cannot finish the six window sweeps in its "
+            "timeout): axioms: %(axioms)s; type-in-type: %(type_in_type)s; unsafe fixpoints: %(unsafe_fix)s; "
+            "assumed positivity: %(assumed_positive)s" % res)
+    if line not in TRUSTED:
+        TRUSTED.append(line)
+    ctx.note(line)
+    bad = [k for k, v in res.items() if v != "<none>"]
+    if bad:
+        return "coqchk reports %s" % "; ".join("%s: %s" % (k, res[k][:200]) for k in bad)
+    return None
+
+
 def gen_files(ctx):
+    if ctx.tier == "thorough" and "user_off" not in _CHK:
+        _CHK["user_off"] = os.environ.get("VERIF_COQCHK", "1") == "0"
+        os.environ["VERIF_COQCHK"] = "0"       # see the comment above: replaced by _coqchk_start/_coqchk_finish
     return {"theories/Gen/TablesC05.v": _gen_tool().gen(ctx)}
 
 
@@ -70,12 +142,12 @@ def _rand_shape(rng, big):
     return int(rng.randint(4, big + 1)), int(rng.randint(4, big + 1))
 
 
-def _rand_image(rng, big, counter=None):
+def _rand_image(rng, big, counter=None, shape=None, kinds=None):
     import scipy.ndimage as ndi
-    h, w = _rand_shape(rng, big)
-    kind = rng.choice(["zero", "one", "noise", "noise", "noise", "blob", "blob", "ring", "lines", "blocks", "frame",
-                       "checker", "dense", "snake"])
-    if kind == "snake":            # long winding one-pixel line: needs far more iterations than max(shape)
+    h, w = shape if shape else _rand_shape(rng, big)
+    kind = rng.choice(kinds if kinds else ["zero", "one", "noise", "noise", "noise", "blob", "blob", "ring", "lines",
+                                           "blocks", "frame", "checker", "dense", "snake"])
+    if kind == "snake" and not shape:   # long winding one-pixel line: needs far more iterations than max(shape)
         h, w = int(rng.randint(7, big + 1)), int(rng.randint(7, big + 1))
     if counter is not None:
         counter("img:" + kind)
@@ -174,6 +246,50 @@ def _mk(fn, img, h, w, **kw):
     return d
 
 
+DTYPES = ["bool", "uint8", "int8", "uint16", "int32", "int64", "float32", "float64"]
+LAYOUTS = ["C", "F", "strided", "rev", "ro"]
+LABEL_DTYPES = ["int64", "int32", "int16", "uint8", "uint16", "uint32"]
+
+
+def _variant(rng, case, allow_dtype=True):
+    """random dtype / foreground value / memory layout for an image case (most stay plain bool, C)"""
+    if allow_dtype and rng.rand() < 0.45:
+        dt = str(rng.choice(DTYPES[1:]))
+        case["dt"] = dt
+        if dt == "uint8" and rng.rand() < 0.4:
+            case["val"] = 255
+        elif dt.startswith("float") and rng.rand() < 0.4:
+            case["val"] = 0.5
+    if rng.rand() < 0.45:
+        case["lay"] = str(rng.choice(LAYOUTS[1:]))
+    return case
+
+
+def _rand_mask(rng, h, w):
+    u = rng.rand()
+    if u < 0.2:
+        m = np.ones((h, w), bool)
+    elif u < 0.3:
+        m = np.zeros((h, w), bool)
+    elif u < 0.6:
+        m = rng.rand(h, w) < rng.choice([0.5, 0.8, 0.95])
+    else:                     # a rectangle (or its complement)
+        r0, c0 = int(rng.randint(0, h)), int(rng.randint(0, w))
+        r1, c1 = int(rng.randint(r0, h)), int(rng.randint(c0, w))
+        m = np.zeros((h, w), bool)
+        m[r0:r1 + 1, c0:c1 + 1] = True
+        if rng.rand() < 0.3:
+            m = ~m
+    return m.astype(int).tolist()
+
+
+def _rand_iters(rng, fn):
+    u = rng.rand()
+    if fn == "thin":
+        return None if u < 0.5 else int(rng.choice([-1, 0, 1, 1, 2, 3, 4, 6]))
+    return -1 if u < 0.5 else int(rng.choice([-3, 0, 1, 1, 2, 3, 4, 6]))
+
+
 def _corpus():
     cs = []
     full = [[1] * 3 for _ in range(3)]
@@ -188,13 +304,20 @@ def _corpus():
         cs.append(_mk("loop", img, h, w, order=_fg(img)))
         cs.append(_mk("loop", img, h, w, order=_fg(img)[::-1]))
         cs.append(_mk("skel", img, h, w))
+    for dt in DTYPES[1:]:
+        cs.append(_mk("thin", big, 5, 5, it=None, dt=dt))
+        cs.append(_mk("shrink", ring, 4, 4, it=-1, dt=dt))
+        cs.append(_mk("skel", big, 5, 5, dt=dt, mask=[[1] * 5 for _ in range(5)]))
+    for lay in LAYOUTS[1:]:
+        cs.append(_mk("thin", big, 5, 5, it=None, lay=lay))
+        cs.append(_mk("shrink", big, 5, 5, it=-1, lay=lay))
+        cs.append(_mk("skel", big, 5, 5, lay=lay))
     for h, w in ((0, 0), (0, 3), (3, 0)):
         img = [[] for _ in range(h)]
         cs.append(_mk("thin", img, h, w, it=None))
         cs.append(_mk("shrink", img, h, w, it=-1))
     cdir = os.path.join(os.path.dirname(os.path.dirname(_HERE)), "corpus", "C05")
     if os.path.isdir(cdir):
-        import json
         for name in sorted(os.listdir(cdir)):
             if name.endswith(".json"):
                 with open(os.path.join(cdir, name)) as f:
@@ -203,13 +326,112 @@ def _corpus():
 
 
 def _exhaustive_shapes(ctx):
-    shapes = [(h, w) for h in range(1, 4) for w in range(1, 4)] + [(3, 4), (4, 3), (2, 4), (4, 2), (1, 5), (5, 1)]
+    shapes = [(h, w) for h in range(1, 4) for w in range(1, 4)] + [(3, 4), (2, 4), (4, 2), (1, 5), (5, 1)]
     if not ctx.quick():
-        shapes += [(4, 4), (3, 5), (5, 3), (2, 5), (5, 2)]
+        shapes += [(4, 3), (4, 4), (3, 5), (5, 3), (2, 5), (5, 2)]
     return shapes
 
 
+def _long_case(rng, n, cnt=None):
+    """thin long images: n x 3, 3 x n, n x 2, 1 x n"""
+    h, w = [(n, 3), (3, n), (n, 2), (1, n), (n, 3), (3, n)][int(rng.randint(0, 6))]
+    kind = str(rng.choice(["noise", "sparse", "one", "snake", "dense"]))
+    if cnt:
+        cnt("long:%s" % kind)
+    if kind == "noise":
+        a = rng.rand(h, w) < rng.choice([0.5, 0.7])
+    elif kind == "sparse":
+        a = rng.rand(h, w) < rng.choice([0.15, 0.3])
+    elif kind == "one":
+        a = np.ones((h, w), bool)
+    elif kind == "dense":
+        a = rng.rand(h, w) < 0.93
+    else:
+        a = np.zeros((h, w), bool)
+        if h >= w:
+            a[:, 0] = True
+            a[::2, :] = True
+        else:
+            a[0, :] = True
+            a[:, ::2] = True
+    img = a.astype(int).tolist()
+    u = rng.rand()
+    if u < 0.4:
+        c = _mk("thin", img, h, w, it=None if rng.rand() < 0.6 else int(rng.randint(0, 4)))
+    elif u < 0.8:
+        # to convergence only where objects are small (the grid model costs O(H*W) per pass)
+        c = _mk("shrink", img, h, w, it=-1 if kind == "sparse" else int(rng.randint(0, 5)))
+    else:
+        c = _mk("loop", img, h, w, order=_rand_order(rng, img))
+    return _variant(rng, c)
+
+
+def _rand_case(rng, fn, big, cnt=None, shape=None, kinds=None):
+    img, h, w = _rand_image(rng, big, cnt, shape, kinds)
+    if fn in ("thin", "shrink"):
+        c = _mk(fn, img, h, w, it=_rand_iters(rng, fn))
+        if fn == "thin" and rng.rand() < 0.3:
+            c["mask"] = _rand_mask(rng, h, w)
+        return _variant(rng, c)
+    if fn == "lookup":
+        return _variant(rng, _mk(fn, img, h, w, t=int(rng.randint(0, 7)),
+                                 it=None if rng.rand() < 0.4 else int(rng.randint(0, 4))))
+    if fn == "loop":
+        return _mk(fn, img, h, w, order=_rand_order(rng, img))
+    if fn in ("skel", "skel_ord"):
+        c = _mk(fn, img, h, w)
+        if fn == "skel_ord":
+            o = rng.permutation(h * w) * int(rng.choice([1, 1, 3])) - int(rng.choice([0, 0, 50]))
+            c["ord"] = o.reshape(h, w).tolist()
+        if rng.rand() < 0.35:
+            c["mask"] = _rand_mask(rng, h, w)
+        return _variant(rng, c, allow_dtype="mask" in c)     # without a mask skeletonize needs a bool array
+    raise ValueError(fn)
+
+
+def _rand_labels(rng, big, cnt=None):
+    import scipy.ndimage as ndi
+    img, h, w = _rand_image(rng, big, cnt)
+    a = np.array(img, bool).reshape(h, w)
+    u = rng.rand()
+    if u < 0.3:       # connected components (4- or 8-connected), randomly renumbered, some numbers absent
+        lab, n = ndi.label(a, np.ones((3, 3), bool) if rng.rand() < 0.5 else None)
+        perm = np.concatenate([[0], rng.permutation(n) + 1 + int(rng.randint(0, 3))])
+        lab = perm[lab]
+    elif u < 0.55:    # noise labels: touching objects everywhere
+        lab = a * rng.randint(1, int(rng.randint(2, 6)), (h, w))
+    elif u < 0.7:     # no background at all: every pixel labelled
+        lab = rng.randint(1, int(rng.randint(2, 5)), (h, w))
+        if rng.rand() < 0.5:
+            lab = 1 + (np.arange(w)[None, :] * 3 // max(w, 1)) + 3 * (np.arange(h)[:, None] * 2 // max(h, 1))
+    else:             # split every object by a random vertical / horizontal cut
+        lab = a * (1 + (np.arange(w)[None, :] > rng.randint(0, w + 1)) + 2 * (np.arange(h)[:, None] > rng.randint(0, h + 1)))
+    lab = np.asarray(lab, np.int64)
+    dt = str(rng.choice(LABEL_DTYPES))
+    if rng.rand() < 0.35:    # sparse numbering
+        top = {"uint8": 255, "int16": 30000}.get(dt, 60000)
+        k = max(int(lab.max()), 1)
+        lab = np.where(lab > 0, lab * (top // k) - int(rng.randint(0, max(1, top // k))), 0)
+    elif dt == "uint8":
+        lab = np.minimum(lab, 255)
+    c = {"fn": "labels", "h": h, "w": w, "lab": lab.astype(int).tolist(), "dt": dt}
+    if rng.rand() < 0.3:
+        c["lay"] = str(rng.choice(LAYOUTS[1:]))
+    return c
+
+
+def _session(rng, big, n):
+    """n calls of mixed entry points, executed in this order in a fresh interpreter"""
+    fns = ["thin", "shrink", "skel", "labels", "lookup", "loop", "skel_ord"]
+    calls = []
+    for _ in range(n):
+        fn = str(rng.choice(fns))
+        calls.append(_rand_labels(rng, 10) if fn == "labels" else _rand_case(rng, fn, big))
+    return {"fn": "session", "calls": calls}
+
+
 def generate(ctx):
+    _coqchk_start(ctx)
     rng = ctx.rng
     big = ctx.n(26, 40)
     cases = list(_corpus())
@@ -221,51 +443,33 @@ def generate(ctx):
             cases.append(_mk("loop", img, h, w, order=_rand_order(rng, img)))
         ctx.count("exhaustive:%dx%d" % (h, w), 1 << (h * w))
     cnt = lambda k: ctx.count(k)
-    for _ in range(ctx.n(500, 3000)):
-        img, h, w = _rand_image(rng, big, cnt)
-        it = None if rng.rand() < 0.6 else int(rng.randint(0, 7))
-        cases.append(_mk("thin", img, h, w, it=it))
-    for _ in range(ctx.n(500, 3000)):
-        img, h, w = _rand_image(rng, big, cnt)
-        it = -1 if rng.rand() < 0.6 else int(rng.randint(0, 7))
-        cases.append(_mk("shrink", img, h, w, it=it))
-    for _ in range(ctx.n(350, 2000)):
-        img, h, w = _rand_image(rng, big, cnt)
-        it = None if rng.rand() < 0.4 else int(rng.randint(0, 4))
-        cases.append(_mk("lookup", img, h, w, t=int(rng.randint(0, 7)), it=it))
-    for _ in range(ctx.n(500, 3000)):
-        img, h, w = _rand_image(rng, big, cnt)
-        cases.append(_mk("loop", img, h, w, order=_rand_order(rng, img)))
-    for _ in range(ctx.n(250, 1500)):
-        img, h, w = _rand_image(rng, big, cnt)
-        if h * w == 0:
-            continue
-        o = rng.permutation(h * w) * int(rng.choice([1, 1, 3])) - int(rng.choice([0, 0, 50]))
-        cases.append(_mk("skel_ord", img, h, w, ord=o.reshape(h, w).tolist()))
-    for _ in range(ctx.n(250, 1500)):
-        img, h, w = _rand_image(rng, big, cnt)
-        cases.append(_mk("skel", img, h, w))
-    for _ in range(ctx.n(100, 500)):
-        cases.append(_rand_labels(rng, min(big, 24), cnt))
+    rnd = []
+    for fn, nq, nt in (("thin", 450, 3000), ("shrink", 450, 3000), ("lookup", 250, 2000), ("loop", 350, 3000),
+                       ("skel_ord", 170, 1400), ("skel", 170, 1400)):
+        for _ in range(ctx.n(nq, nt)):
+            rnd.append(_rand_case(rng, fn, big, cnt))
+    for _ in range(ctx.n(70, 500)):
+        rnd.append(_rand_labels(rng, min(big, 24), cnt))
+    for _ in range(ctx.n(14, 70)):
+        rnd.append(_long_case(rng, int(rng.choice(ctx.n([120, 200], [300, 900, 900]))), cnt))
+    if not ctx.quick():      # larger serpentines / spirals
+        for _ in range(10):
+            s = int(rng.randint(44, 57))
+            rnd.append(_rand_case(rng, str(rng.choice(["thin", "shrink", "shrink", "skel"])), big, cnt,
+                                  shape=(s, int(rng.randint(44, 57))), kinds=["snake"]))
+    for _ in range(ctx.n(6, 40)):
+        rnd.append(_session(rng, min(big, 16), int(rng.randint(4, 11))))
+    order = rng.permutation(len(rnd))       # alternate the entry points inside every worker process
+    cases.extend(rnd[k] for k in order)
     for c in cases:
         ctx.count("fn:" + c["fn"])
+        if c.get("dt", "bool") != "bool":
+            ctx.count("dtype:" + c["dt"])
+        if c.get("lay", "C") != "C":
+            ctx.count("layout:" + c["lay"])
+        if "mask" in c:
+            ctx.count("masked:" + c["fn"])
     return cases
-
-
-def _rand_labels(rng, big, cnt=None):
-    import scipy.ndimage as ndi
-    img, h, w = _rand_image(rng, big, cnt)
-    a = np.array(img, bool).reshape(h, w)
-    u = rng.rand()
-    if u < 0.4:       # connected components (4- or 8-connected), randomly renumbered, some numbers absent
-        lab, n = ndi.label(a, np.ones((3, 3), bool) if rng.rand() < 0.5 else None)
-        perm = np.concatenate([[0], rng.permutation(n) + 1 + int(rng.randint(0, 3))])
-        lab = perm[lab]
-    elif u < 0.7:     # noise labels: touching objects everywhere
-        lab = a * rng.randint(1, int(rng.randint(2, 6)), (h, w))
-    else:             # split every object by a random vertical / horizontal cut
-        lab = a * (1 + (np.arange(w)[None, :] > rng.randint(0, w + 1)) + 2 * (np.arange(h)[:, None] > rng.randint(0, h + 1)))
-    return {"fn": "labels", "h": h, "w": w, "lab": np.asarray(lab, int).tolist()}
 
 
 # ------------------------------------------------------------------------------ implementation
@@ -302,28 +506,63 @@ def _tables7():
             M.binary_shrink_urb_table, M.binary_shrink_lrl_table, M.binary_shrink_llt_table]
 
 
+def _layout(a, lay):
+    if a.size == 0 or lay == "C":
+        return np.ascontiguousarray(a)
+    if lay == "F":
+        return np.asfortranarray(a)
+    if lay == "strided":
+        bigarr = np.zeros((2 * a.shape[0] + 1, 3 * a.shape[1] + 2), a.dtype)
+        bigarr[1::2, 1::3][:a.shape[0], :a.shape[1]] = a
+        return bigarr[1::2, 1::3][:a.shape[0], :a.shape[1]]
+    if lay == "rev":
+        return np.ascontiguousarray(a[::-1, ::-1])[::-1, ::-1]
+    if lay == "ro":
+        b = np.ascontiguousarray(a).copy()
+        b.setflags(write=False)
+        return b
+    raise ValueError(lay)
+
+
 def _arr(case):
-    return np.array(case["img"], bool).reshape(case["h"], case["w"])
+    a = np.array(case["img"], bool).reshape(case["h"], case["w"])
+    dt = case.get("dt", "bool")
+    if dt != "bool":
+        a = (a.astype(np.float64) * case.get("val", 1)).astype(dt)
+    return _layout(a, case.get("lay", "C"))
+
+
+def _mask(case):
+    return np.array(case["mask"], bool).reshape(case["h"], case["w"]) if "mask" in case else None
 
 
 def _g(a):
-    return np.asarray(a).astype(int).tolist()
+    return (np.asarray(a) != 0).astype(int).tolist()
 
 
-def impl(case):
+def _impl1(case):
     from centrosome import cpmorphology as M
     from centrosome import _cpmorphology2 as K
     fn = case["fn"]
+    if fn == "session":
+        code = ("import sys, json\nfrom harness.props import c05 as P\ncalls = json.load(sys.stdin)\n"
+                "json.dump([P._impl_safe(c) for c in calls], sys.stdout, default=P._js)\n")
+        r = subprocess.run([sys.executable, "-W", "ignore", "-c", code], input=json.dumps(case["calls"]),
+                           capture_output=True, text=True, timeout=50)
+        if r.returncode != 0:
+            raise RuntimeError("session interpreter failed: " + r.stderr[-300:])
+        return {"outs": json.loads(r.stdout)}
     if fn == "labels":
-        lab = np.array(case["lab"], int).reshape(case["h"], case["w"])
-        keep = lab.copy()
+        lab = _layout(np.array(case["lab"], np.int64).reshape(case["h"], case["w"]).astype(case.get("dt", "int64")),
+                      case.get("lay", "C"))
+        keep = np.array(lab).copy()
         calls = []
         orig = M.skeletonize_loop
 
         def spy(result, i, j, order, table):
-            c = {"mask": _g(np.asarray(result) != 0), "order": [[int(i[k]), int(j[k])] for k in order]}
+            c = {"mask": _g(result), "order": [[int(i[k]), int(j[k])] for k in order]}
             r = orig(result, i, j, order, table)
-            c["res"] = _g(np.asarray(result) != 0)
+            c["res"] = _g(result)
             calls.append(c)
             return r
         M.skeletonize_loop = spy
@@ -331,15 +570,17 @@ def impl(case):
             out = M.skeletonize_labels(lab)
         finally:
             M.skeletonize_loop = orig
-        return {"out": np.asarray(out).astype(int).tolist(), "input_unchanged": bool((lab == keep).all()),
-                "calls": calls}
+        return {"out": np.asarray(out).astype(np.int64).tolist(), "input_unchanged": bool((lab == keep).all()),
+                "calls": calls, "dtype": str(np.asarray(out).dtype), "shape": list(np.asarray(out).shape)}
     a = _arr(case)
-    a0 = a.copy()
+    a0 = np.array(a).copy()
+    mask = _mask(case)
+    m0 = None if mask is None else mask.copy()
     if fn == "thin":
-        out = M.thin(a, iterations=case["it"])
+        out = M.thin(a, mask, case["it"]) if mask is not None else M.thin(a, iterations=case["it"])
         r = {"out": _g(out)}
         if case["it"] is None:
-            r["again"] = _g(M.thin(out, iterations=None))
+            r["again"] = _g(M.thin(out, mask, None) if mask is not None else M.thin(out, iterations=None))
     elif fn == "shrink":
         out = M.binary_shrink(a, iterations=case["it"])
         r = {"out": _g(out)}
@@ -351,7 +592,7 @@ def impl(case):
         ii, jj = K.index_lookup(ii, jj, im, table, case["it"])
         out = K.extract_from_image_lookup(a, ii, jj)
         r = {"out": _g(out), "idx": [[int(x) - 1, int(y) - 1] for x, y in zip(ii, jj)],
-             "padded": _g(im[1:-1, 1:-1] != 0) if a.size else []}
+             "padded": _g(im[1:-1, 1:-1]) if a.size else []}
     elif fn == "loop":
         table = _table()
         pix = _fg(case["img"])
@@ -359,9 +600,10 @@ def impl(case):
         i = np.ascontiguousarray([p[0] for p in pix], np.int32)
         j = np.ascontiguousarray([p[1] for p in pix], np.int32)
         order = np.ascontiguousarray([pos[tuple(p)] for p in case["order"]], np.int32)
-        result = np.ascontiguousarray(a, np.uint8)
-        K.skeletonize_loop(result, i, j, order, table)
-        r = {"out": _g(result != 0), "raw_max": int(result.max()) if result.size else 0}
+        out = np.ascontiguousarray(a != 0, np.uint8)
+        K.skeletonize_loop(out, i, j, order, table)
+        r = {"out": _g(out), "raw_max": int(out.max()) if out.size else 0}
+        out = out.astype(a.dtype)
     elif fn in ("skel", "skel_ord"):
         got = {}
         orig = M.skeletonize_loop
@@ -371,16 +613,128 @@ def impl(case):
             return orig(result, i, j, order, table)
         M.skeletonize_loop = spy
         try:
-            if fn == "skel":
-                out = M.skeletonize(a)
-            else:
-                out = M.skeletonize(a, ordering=np.array(case["ord"], int).reshape(case["h"], case["w"]))
+            kw = {}
+            if mask is not None:
+                kw["mask"] = mask
+            if fn == "skel_ord":
+                kw["ordering"] = np.array(case["ord"], int).reshape(case["h"], case["w"])
+            out = M.skeletonize(a, **kw)
         finally:
             M.skeletonize_loop = orig
         r = {"out": _g(out), "order": got.get("order")}
     else:
         raise ValueError(fn)
-    r["input_unchanged"] = bool((a == a0).all())
+    out = np.asarray(out)
+    r["dtype"] = str(out.dtype)
+    r["shape"] = list(out.shape)
+    if fn in ("thin", "shrink", "lookup") and out.size:
+        r["vals_ok"] = bool((out[out != 0] == a0[out != 0]).all())
+    r["input_unchanged"] = bool((np.asarray(a) == a0).all() and (m0 is None or (mask == m0).all()))
+    return r
+
+
+def _js(o):
+    if isinstance(o, np.ndarray):
+        return o.tolist()
+    if isinstance(o, np.integer):
+        return int(o)
+    if isinstance(o, np.floating):
+        return float(o)
+    if isinstance(o, np.bool_):
+        return bool(o)
+    return str(o)
+
+
+def _impl_safe(case):
+    try:
+        return _impl1(case)
+    except BaseException as e:      # noqa: same mapping as harness/worker.py
+        if isinstance(e, (KeyboardInterrupt, SystemExit)):
+            raise
+        return {"exc": type(e).__name__, "msg": str(e)[:300]}
+
+
+# -- parallel implementation workers -----------------------------------------------------------------------------
+# harness/worker.py calls impl(case) for the cases of its input file one after the other.  impl() looks ahead in
+# that file and evaluates the next batch in a pool of forked worker processes (each has the staged package
+# imported; consecutive cases go to different processes, so every process sees the entry points interleaved).
+# Any trouble (a child dies or hangs, the case stream is not the file's) switches to plain sequential evaluation,
+# so the core's localisation of crashes and hangs keeps working.
+_PRE = {"cases": None, "pos": 0, "res": {}, "pool": None, "off": False}
+_WORKERS = 4
+
+
+def _cost(c):
+    fn = c["fn"]
+    if fn == "session":
+        return 1.0 + 0.05 * len(c["calls"])
+    if fn == "labels":
+        return 0.12
+    if fn in ("skel", "skel_ord"):
+        return 0.04
+    return 0.0006 + 2e-6 * c["h"] * c["w"]
+
+
+def _pool_off():
+    _PRE["off"] = True
+    p = _PRE["pool"]
+    _PRE["pool"] = None
+    if p is not None:
+        try:
+            for pr in list(getattr(p, "_processes", {}).values()):
+                pr.kill()
+            p.shutdown(wait=False, cancel_futures=True)
+        except Exception:
+            pass
+
+
+def _lookahead(case):
+    st = _PRE
+    if st["off"]:
+        return None
+    try:
+        if st["cases"] is None:
+            ok = len(sys.argv) >= 5 and sys.argv[2] == "impl" and os.path.basename(sys.argv[3]).startswith("in_")
+            if not ok:
+                st["off"] = True
+                return None
+            with open(sys.argv[3]) as f:
+                st["cases"] = json.load(f)
+            if len(st["cases"]) < 64:
+                st["off"] = True
+                return None
+        k = st["pos"]
+        if k >= len(st["cases"]) or st["cases"][k] != case:
+            _pool_off()
+            return None
+        if k not in st["res"]:
+            import multiprocessing
+            from concurrent.futures import ProcessPoolExecutor
+            if st["pool"] is None:
+                st["pool"] = ProcessPoolExecutor(_WORKERS, mp_context=multiprocessing.get_context("fork"))
+            batch, cost = [], 0.0
+            while k + len(batch) < len(st["cases"]) and cost < 16.0 and len(batch) < 20000:
+                c = st["cases"][k + len(batch)]
+                batch.append(c)
+                cost += _cost(c)
+            st["res"] = {}
+            chunk = max(1, min(64, len(batch) // (4 * _WORKERS)))
+            for n, r in enumerate(st["pool"].map(_impl_safe, batch, timeout=40, chunksize=chunk)):
+                st["res"][k + n] = r
+        st["pos"] = k + 1
+        return st["res"].pop(k)
+    except BaseException as e:
+        if isinstance(e, (KeyboardInterrupt, SystemExit)):
+            raise
+        _pool_off()
+        return None
+
+
+def impl(case):
+    r = _lookahead(case)
+    if r is None:
+        _PRE["pos"] += 1
+        return _impl1(case)
     return r
 
 
@@ -394,67 +748,156 @@ def _flag(it):
     return [0, 0] if it is None else [1, int(it)]
 
 
+_FRESH = {}
+
+
+def _fresh_model(ctx):
+    """When a proof file fails, the core's single make run may stop before the (independent) model and extraction
+    targets are rebuilt, leaving the extracted program on the OLD tables.  Build the extraction target on its own
+    once per run, so the model always follows the regenerated tables."""
+    if _FRESH.get(id(ctx)):
+        return
+    _FRESH[id(ctx)] = True
+    from harness import core
+    with core.CoqLock():
+        rc, out = core.coq_make([EXTRACT[0][:-2] + ".vo"], timeout=600, jobs=4)
+    if rc != 0:
+        raise RuntimeError("model/extraction build failed: " + out[-800:])
+
+
 def _prun(ctx, entry, args, chunk=20000, workers=4):
     """ctx.run_model in chunks on a few threads (each chunk is one run of the extracted program)"""
-    if len(args) <= chunk:
+    _fresh_model(ctx)
+    if len(args) <= 2000:
         return ctx.run_model(entry, args)
     from concurrent.futures import ThreadPoolExecutor
+    chunk = min(chunk, -(-len(args) // workers))
     parts = [args[s:s + chunk] for s in range(0, len(args), chunk)]
     with ThreadPoolExecutor(workers) as ex:
         outs = list(ex.map(lambda a: ctx.run_model(entry, a), parts))
     return [r for o in outs for r in o]
 
 
-def model(ctx, cases, outs):
-    res = [None] * len(cases)
-    groups = {}
+def _eff(case):
+    """the image the kernels actually process: image & mask"""
+    if "mask" not in case:
+        return case["img"]
+    return [[int(bool(v) and bool(m)) for v, m in zip(r, mr)] for r, mr in zip(case["img"], case["mask"])]
+
+
+def _expect(case, grid):
+    """compose the model's result inside the mask with the input outside"""
+    if "mask" not in case or grid is None:
+        return grid
+    return [[(g if m else int(bool(v))) for g, m, v in zip(gr, mr, r)]
+            for gr, mr, r in zip(grid, case["mask"], case["img"])]
+
+
+def _atoms(cases, outs):
+    """flatten sessions: [(case index, position in session | None, case, out)]"""
+    res = []
     for k, (c, o) in enumerate(zip(cases, outs)):
-        fn = c["fn"]
-        if fn == "labels":
-            # one skeletonize_loop call per colour: mask and processing order as the code built them
-            if not _bad(o):
-                for n, call in enumerate(o.get("calls", [])):
-                    groups.setdefault("entry_loop", []).append(((k, n), [c["h"], c["w"], call["mask"], call["order"]]))
-                res[k] = [None] * len(o.get("calls", []))
-            continue
-        base = [c["h"], c["w"], c["img"]]
-        if fn == "thin":
-            groups.setdefault("entry_thin", []).append((k, base + _flag(c["it"])))
-        elif fn == "shrink":
-            groups.setdefault("entry_shrink", []).append((k, base + [int(c["it"])]))
-        elif fn == "lookup":
-            groups.setdefault("entry_lookup", []).append((k, base + [c["t"]] + _flag(c["it"])))
-        elif fn == "loop":
-            groups.setdefault("entry_loop", []).append((k, base + [c["order"]]))
-        elif fn == "skel_ord":
-            groups.setdefault("entry_skel_ord", []).append((k, base + [c["ord"]]))
-        elif fn == "skel":
-            if not _bad(o) and o.get("order") is not None:
-                groups.setdefault("entry_loop", []).append((k, base + [o["order"]]))
-    for entry, items in groups.items():
-        for (k, _), r in zip(items, _prun(ctx, entry, [a for _, a in items])):
-            if isinstance(k, tuple):
-                res[k[0]][k[1]] = r
-            else:
-                res[k] = r
-    # the processing order the model derives from the ordering matrix
-    so = [(k, [c["h"], c["w"], c["img"], c["ord"]]) for k, c in enumerate(cases) if c["fn"] == "skel_ord"]
-    if so:
-        for (k, _), r in zip(so, ctx.run_model("entry_order", [a for _, a in so])):
-            res[k] = {"grid": res[k], "order": r}
+        if c["fn"] == "session":
+            if _bad(o):
+                continue
+            for n, (sc, so) in enumerate(zip(c["calls"], o["outs"])):
+                res.append((k, n, sc, so))
+        else:
+            res.append((k, None, c, o))
     return res
 
 
-def compare(case, out, m):
+def _model_atoms(ctx, atoms):
+    res = [None] * len(atoms)
+    groups = {}
+    for a, (_, _, c, o) in enumerate(atoms):
+        fn = c["fn"]
+        if fn == "labels":
+            # one skeletonize_loop call per colour: mask and processing order as the code built them;
+            # and label by label: the loop on the label ALONE (same order restricted to it)
+            if not _bad(o):
+                lab = np.array(c["lab"], np.int64).reshape(c["h"], c["w"])
+                res[a] = {"calls": [None] * len(o.get("calls", [])), "alone": []}
+                for n, call in enumerate(o.get("calls", [])):
+                    groups.setdefault("entry_loop", []).append(((a, "calls", n), [c["h"], c["w"], call["mask"], call["order"]]))
+                    cm = np.array(call["mask"], bool).reshape(lab.shape)
+                    for lv in np.unique(lab[cm]).tolist():
+                        one = (lab == lv)
+                        ordl = [p for p in call["order"] if one[p[0], p[1]]]
+                        res[a]["alone"].append([lv, n, None])
+                        groups.setdefault("entry_loop", []).append(
+                            ((a, "alone", len(res[a]["alone"]) - 1), [c["h"], c["w"], one.astype(int).tolist(), ordl]))
+            continue
+        base = [c["h"], c["w"], _eff(c)]
+        if fn == "thin":
+            groups.setdefault("entry_thin", []).append((a, base + _flag(c["it"])))
+        elif fn == "shrink":
+            groups.setdefault("entry_shrink", []).append((a, base + [int(c["it"])]))
+        elif fn == "lookup":
+            groups.setdefault("entry_lookup", []).append((a, base + [c["t"]] + _flag(c["it"])))
+        elif fn == "loop":
+            groups.setdefault("entry_loop", []).append((a, base + [c["order"]]))
+        elif fn == "skel_ord":
+            groups.setdefault("entry_skel_ord", []).append((a, base + [c["ord"]]))
+            groups.setdefault("entry_order", []).append(((a, "order"), base + [c["ord"]]))
+        elif fn == "skel":
+            if not _bad(o) and o.get("order") is not None:
+                groups.setdefault("entry_loop", []).append((a, base + [o["order"]]))
+    for entry, items in groups.items():
+        for (key, _), r in zip(items, _prun(ctx, entry, [x for _, x in items])):
+            if not isinstance(key, tuple):
+                if isinstance(res[key], dict):
+                    res[key]["grid"] = r
+                else:
+                    res[key] = r
+            elif key[1] == "order":
+                if not isinstance(res[key[0]], dict):
+                    res[key[0]] = {"grid": res[key[0]]}
+                res[key[0]]["order"] = r
+            elif key[1] == "calls":
+                res[key[0]]["calls"][key[2]] = r
+            else:
+                res[key[0]]["alone"][key[2]][2] = r
+    return res
+
+
+def model(ctx, cases, outs):
+    atoms = _atoms(cases, outs)
+    mres = _model_atoms(ctx, atoms)
+    res = [None] * len(cases)
+    for (k, n, _, _), m in zip(atoms, mres):
+        if n is None:
+            res[k] = m
+        else:
+            if res[k] is None:
+                res[k] = [None] * len(cases[k]["calls"])
+            res[k][n] = m
+    return res
+
+
+def _expected_dtype(case):
+    fn = case["fn"]
+    if fn in ("thin", "shrink", "lookup"):
+        return {"bool": "bool"}.get(case.get("dt", "bool"), case.get("dt", "bool"))
+    if fn in ("skel", "skel_ord"):
+        return "bool"
+    return None
+
+
+def _compare1(case, out, m):
     fn = case["fn"]
     if _bad(out):
         return "implementation raised/crashed: %s" % (str(out)[:300],)
+    if out.get("shape") is not None and out["shape"] != [case["h"], case["w"]]:
+        return "%s: output shape %s differs from the input shape" % (fn, out["shape"])
     if fn == "labels":
-        # every per-colour skeletonize_loop call equals the model; the result is their union, relabelled
-        lab = np.array(case["lab"], int).reshape(case["h"], case["w"])
-        exp = np.zeros(lab.shape, int)
+        lab = np.array(case["lab"], np.int64).reshape(case["h"], case["w"])
+        if out["dtype"] != case.get("dt", "int64"):
+            return "skeletonize_labels: output dtype %s for input dtype %s" % (out["dtype"], case.get("dt", "int64"))
+        exp = np.zeros(lab.shape, np.int64)
         seen = np.zeros(lab.shape, bool)
-        for call, mm in zip(out["calls"], m or []):
+        ress = []
+        for call, mm in zip(out["calls"], (m or {}).get("calls", [])):
             if mm != [call["res"]]:
                 return "skeletonize_labels: a per-colour skeletonize_loop call differs from the model"
             mask = np.array(call["mask"], bool).reshape(lab.shape)
@@ -462,20 +905,31 @@ def compare(case, out, m):
                 return "skeletonize_labels: colour masks overlap or cover unlabelled pixels"
             seen |= mask
             r = np.array(call["res"], bool).reshape(lab.shape)
+            ress.append(r)
             exp[r] = lab[r]
         if lab.max(initial=0) > 0 and not (seen == (lab > 0)).all():
             return "skeletonize_labels: the colour masks do not cover the labelled pixels"
         if exp.tolist() != out["out"] and lab.max(initial=0) > 0:
             return "skeletonize_labels output is not the relabelled union of the per-colour skeletons"
+        # labels do not influence each other: each label's part equals the loop run on that label alone
+        for lv, n, mm in (m or {}).get("alone", []):
+            if mm != [(ress[n] & (lab == lv)).astype(int).tolist()]:
+                return "skeletonize_labels: label %d is not skeletonized as it would be alone (same order)" % lv
         return None
+    want = _expected_dtype(case)
+    if want and out.get("dtype") != want:
+        return "%s: output dtype %s, expected %s" % (fn, out.get("dtype"), want)
+    if out.get("vals_ok") is False:
+        return "%s: surviving pixels do not carry their input values" % fn
     if fn == "skel_ord":
-        if m["order"] != out["order"]:
-            return "processing order differs: impl %s model %s" % (str(out["order"])[:120], str(m["order"])[:120])
-        m = m["grid"]
-    if m is None:
-        return "no model output (skeletonize did not reach skeletonize_loop)"
-    if m != [out["out"]]:
-        return "%s output differs from the model: impl %s model %s" % (fn, str(out["out"])[:160], str(m)[:160])
+        if m is None or m.get("order") != out["order"]:
+            return "processing order differs: impl %s model %s" % (str(out["order"])[:120], str((m or {}).get("order"))[:120])
+        m = m.get("grid")
+    if m is None or m == []:
+        return "no model output (skeletonize did not reach skeletonize_loop / malformed grid)"
+    exp = _expect(case, m[0])
+    if exp != out["out"]:
+        return "%s output differs from the model: impl %s model %s" % (fn, str(out["out"])[:160], str(exp)[:160])
     if fn == "lookup":
         if out["idx"] != _fg(out["out"]):
             return "index_lookup's surviving index list is not the raster list of the surviving pixels"
@@ -483,6 +937,18 @@ def compare(case, out, m):
             return "index_lookup's in-place image differs from the surviving index list"
     if fn == "loop" and out["raw_max"] > 1:
         return "skeletonize_loop wrote a value other than 0/1"
+    return None
+
+
+def compare(case, out, m):
+    if case["fn"] != "session":
+        return _compare1(case, out, m)
+    if _bad(out):
+        return "session raised/crashed: %s" % (str(out)[:300],)
+    for n, (sc, so) in enumerate(zip(case["calls"], out["outs"])):
+        d = _compare1(sc, so, (m or [None] * len(case["calls"]))[n])
+        if d:
+            return "call %d of a fresh-interpreter session (%s): %s" % (n, "/".join(c["fn"] for c in case["calls"]), d)
     return None
 
 
@@ -532,7 +998,6 @@ def _hole_free_not_point(a, s):
     la, na = ndi.label(a, _E8)
     if na == 0:
         return None
-    filled = np.zeros(a.shape, bool)
     for k, sl in enumerate(ndi.find_objects(la), 1):
         comp = la[sl] == k
         if (ndi.binary_fill_holes(comp) & ~comp).any():
@@ -543,11 +1008,11 @@ def _hole_free_not_point(a, s):
     return None
 
 
-def check(ctx, cases, outs):
-    res = [None] * len(cases)
+def _check_atoms(ctx, atoms):
+    res = [None] * len(atoms)
     extra = {}         # clauses beyond topology (reported only when the topology verdict is clean)
-    jobs = []          # (case index, H, W, before, after, what)
-    for k, (c, o) in enumerate(zip(cases, outs)):
+    jobs = []          # (atom index, H, W, before, after, what)
+    for k, (_, _, c, o) in enumerate(atoms):
         if _bad(o):
             res[k] = "implementation raised/crashed on a valid input: %s" % (str(o)[:300],)
             continue
@@ -556,8 +1021,12 @@ def check(ctx, cases, outs):
             res[k] = "the call modified its input array"
             continue
         if c["fn"] == "labels":
-            lab = np.array(c["lab"], int).reshape(h, w)
-            out = np.array(o["out"], int).reshape(h, w)
+            lab = np.array(c["lab"], np.int64).reshape(h, w)
+            out = np.array(o["out"], np.int64).reshape(-1)
+            if out.shape[0] != h * w:
+                res[k] = "output shape differs from the input shape"
+                continue
+            out = out.reshape(h, w)
             if ((out != 0) & (out != lab)).any():
                 res[k] = "skeletonize_labels output carries a label where the input has a different one"
                 continue
@@ -570,11 +1039,19 @@ def check(ctx, cases, outs):
         if np.array(o["out"]).reshape(-1).shape[0] != h * w:
             res[k] = "output shape differs from the input shape"
             continue
-        jobs.append((k, h, w, c["img"], o["out"], c["fn"]))
+        before, after = _eff(c), o["out"]
+        if "mask" in c:
+            outside = [[(not m) and (int(bool(v)) != g) for v, m, g in zip(r, mr, gr)]
+                       for r, mr, gr in zip(c["img"], c["mask"], o["out"])]
+            if any(any(r) for r in outside):
+                res[k] = "%s changed pixels outside the mask" % c["fn"]
+                continue
+            after = [[int(g and m) for g, m in zip(gr, mr)] for gr, mr in zip(o["out"], c["mask"])]
+        jobs.append((k, h, w, before, after, c["fn"]))
         if "again" in o and o["again"] != o["out"]:
             extra[k] = "%s run to convergence is not idempotent" % c["fn"]
         elif c["fn"] == "shrink" and c["it"] == -1:
-            extra[k] = _hole_free_not_point(_arr(c), np.array(o["out"], bool).reshape(h, w))
+            extra[k] = _hole_free_not_point(np.array(before, bool).reshape(h, w), np.array(o["out"], bool).reshape(h, w))
     verdicts = _prun(ctx, "entry_topo_check", [[h, w, a, b] for (_, h, w, a, b, _) in jobs]) if jobs else []
     for n, ((k, h, w, a, b, what), v) in enumerate(zip(jobs, verdicts)):
         if res[k] is not None:
@@ -595,22 +1072,43 @@ def check(ctx, cases, outs):
     return res
 
 
-def nontrivial(case, out):
+def check(ctx, cases, outs):
+    res = [None] * len(cases)
+    for k, (c, o) in enumerate(zip(cases, outs)):
+        if c["fn"] == "session" and _bad(o):
+            res[k] = "session raised/crashed: %s" % (str(o)[:300],)
+    atoms = _atoms(cases, outs)
+    for (k, n, _, _), v in zip(atoms, _check_atoms(ctx, atoms)):
+        if v and res[k] is None:
+            res[k] = v if n is None else "call %d of a fresh-interpreter session: %s" % (n, v)
+    return res
+
+
+def _nontrivial1(case, out):
     if _bad(out):
         return False
     if case["fn"] == "labels":
         return out["out"] != case["lab"]
-    return out["out"] != case["img"]
+    return out["out"] != [[int(bool(v)) for v in r] for r in case["img"]]
+
+
+def nontrivial(case, out):
+    if case["fn"] == "session":
+        return (not _bad(out)) and any(_nontrivial1(c, o) for c, o in zip(case["calls"], out["outs"]))
+    return _nontrivial1(case, out)
 
 
 def kernel_crosscheck(ctx, cases, outs):
+    chk = _coqchk_finish(ctx)
+    if chk:
+        return "proof: " + chk, 0
     total = 0
     plan = [("thin", "entry_thin", 14), ("shrink", "entry_shrink", 12), ("loop", "entry_loop", 12),
             ("lookup", "entry_lookup", 8), ("skel_ord", "entry_skel_ord", 6)]
     rng = np.random.RandomState(ctx.seed + 5)
     for fn, entry, n in plan:
         idx = [k for k, c in enumerate(cases) if c["fn"] == fn and not _bad(outs[k]) and 6 <= c["h"] * c["w"] <= 64
-               and outs[k]["out"] != c["img"]]
+               and "mask" not in c and _nontrivial1(c, outs[k])]
         if len(idx) > n:
             idx = sorted(rng.choice(idx, n, replace=False).tolist())
         args = []
@@ -627,8 +1125,8 @@ def kernel_crosscheck(ctx, cases, outs):
         if bad:
             return "vm_compute evaluation of Model.ThinSkel.%s differs from the implementation on case %d" % (entry, bad[0]), total
     # the checker itself: accepted pairs inside the kernel
-    idx = [k for k, c in enumerate(cases) if c["fn"] in ("thin", "shrink") and not _bad(outs[k])
-           and 6 <= c["h"] * c["w"] <= 49 and outs[k]["out"] != c["img"]][:8]
+    idx = [k for k, c in enumerate(cases) if c["fn"] in ("thin", "shrink") and not _bad(outs[k]) and "mask" not in c
+           and 6 <= c["h"] * c["w"] <= 49 and _nontrivial1(c, outs[k])][:8]
     args = [[cases[k]["h"], cases[k]["w"], cases[k]["img"], outs[k]["out"]] for k in idx]
     r = ctx.coq_eval_eq("Spec.TopoCheck", "entry_topo_check", args, [1] * len(idx), tag="chk")
     total += len(idx)
@@ -649,13 +1147,15 @@ def search_cases(ctx, rnd):
                 cases.append(_mk("shrink", img, h, w, it=-1))
                 cases.append(_mk("loop", img, h, w, order=_rand_order(rng, img)))
         return cases
-    for _ in range(1500):
-        img, h, w = _rand_image(rng, 30)
-        cases.append(_mk("thin", img, h, w, it=None if rng.rand() < 0.5 else int(rng.randint(0, 5))))
-        cases.append(_mk("shrink", img, h, w, it=-1 if rng.rand() < 0.5 else int(rng.randint(0, 5))))
-        cases.append(_mk("loop", img, h, w, order=_rand_order(rng, img)))
-        if rng.rand() < 0.1:
-            cases.append(_mk("skel", img, h, w))
+    for _ in range(1200):
+        for fn in ("thin", "shrink", "loop", "lookup"):
+            cases.append(_rand_case(rng, fn, 30))
+        if rng.rand() < 0.15:
+            cases.append(_rand_case(rng, str(rng.choice(["skel", "skel_ord"])), 30))
+        if rng.rand() < 0.05:
+            cases.append(_rand_labels(rng, 20))
+    for _ in range(6):
+        cases.append(_session(rng, 14, 8))
     return cases
 
 
@@ -666,6 +1166,25 @@ def _drop(m, axis, k):
 
 
 def shrink_candidates(case):
+    if case["fn"] == "session":
+        calls = case["calls"]
+        for c in calls:             # a single call in the (long-lived) worker
+            yield c
+        if len(calls) > 1:
+            for k in range(len(calls)):
+                yield {"fn": "session", "calls": calls[:k] + calls[k + 1:]}
+        return
+    # plain variant first
+    if any(k in case for k in ("dt", "lay", "val")):
+        yield {k: v for k, v in case.items() if k not in ("dt", "lay", "val")}
+    if "mask" in case and case["fn"] != "labels":
+        d = dict(case)
+        d["img"] = _eff(case)
+        del d["mask"]
+        if d["fn"] in ("skel", "skel_ord"):
+            d.pop("dt", None)
+            d.pop("val", None)
+        yield d
     h, w = case["h"], case["w"]
     key = "lab" if case["fn"] == "labels" else "img"
     m = case[key]
@@ -687,8 +1206,11 @@ def shrink_candidates(case):
                 if m2[r][c]:
                     o.append([r, c])
             d["order"] = o
-        if case["fn"] == "skel_ord" and axis is not None:
-            d["ord"] = _drop(case["ord"], axis, k)
+        if axis is not None:
+            if case["fn"] == "skel_ord":
+                d["ord"] = _drop(case["ord"], axis, k)
+            if "mask" in case:
+                d["mask"] = _drop(case["mask"], axis, k)
         return d
     if h > 1:
         for k in ([0, h - 1] + list(range(1, h - 1)))[:8]:
@@ -715,16 +1237,20 @@ MANIFEST = {
         "input component; holes in one-to-one correspondence) for every image size, every image, every iteration "
         "count and every processing order, on the seven 512-entry tables that a translator dumps from the staged "
         "package on every run: the kernel re-runs the 512-pattern simple-point sweep (skeletonize table) and the "
-        "pruned 4x5-window sweep (six pass tables) whenever a table bit changes. The models are tied to the code by "
-        "exact equality of complete outputs (exhaustively on all small images, plus random images) with the extracted "
-        "models cross-checked against vm_compute, and the verified checker topo_check (soundness proved) is "
-        "evaluated on every output of skeletonize, thin, binary_shrink and, per label, skeletonize_labels."),
+        "pruned 4x5-window sweep (six pass tables) whenever a table bit changes. Also proved: convergence and "
+        "idempotence of thin / binary_shrink run to convergence, equal component / hole counts from TopoEq, "
+        "per-label independence of skeletonize_labels over the colouring model, the local (512-pattern) half of "
+        "shrink-to-a-point. The models are tied to the code by exact equality of complete outputs (exhaustively on "
+        "all small images, plus random images over every dtype, layout, mask, ordering and iteration parameter, long "
+        "images, fresh-interpreter call sequences) with the extracted models cross-checked against vm_compute, and "
+        "the verified checker topo_check (soundness proved) is evaluated on every output."),
     "level_note": (
         "Trusted: Coq kernel + vm_compute; extraction (ExtrOcamlBasic only) and the S-expression driver; the table "
         "translator tools/gen_tables_c05.py; the Python harness; scipy's EDT / NumPy's lexsort and permutation (only "
         "choose the processing order, which the theorem quantifies over); color_labels. The tie between model and "
-        "code is differential, not a proof about Python/C++. Completeness of topo_check is not proved (cross-checked "
-        "against a component-counting check on every case)."),
+        "code is differential, not a proof about Python/C++. Two global digital-topology lemmas are named as "
+        "hypotheses of _partial theorems (existence of an end pixel in a hole-free object; Ronse's deletability "
+        "theorem for completeness of topo_check); both are validated exhaustively on small images outside Coq."),
     "technique": "Coq proof over executable model (kernel-run finite sweeps on regenerated tables, lifted to all images) "
                  "+ exact differential correspondence (extracted OCaml and vm_compute) + verified checker on outputs",
     "design_ref": "DESIGN.md section 7, C05",
